@@ -26,9 +26,9 @@ import vlib  # noqa: E402
 
 PINS = {
     "C11": ["C11_coverage_invariant", "C11_not_stranded", "C11_ordering", "C11_handler_after_wake", "C11_publishes"],
-    "C12": [],
-    "C13": [],
-    "C14": [],
+    "C12": ["C12_slots", "C12_del_guard", "C12_del_not_reserved", "C12_add_slots"],
+    "C13": ["C13_channel_partial"],
+    "C14": ["C14_piped_partial"],
 }
 WDIR = os.path.join(vlib.ROOT, "harness", "w")
 WORK = os.path.join(vlib.OUT, "w")
